@@ -1,0 +1,16 @@
+//go:build verif
+
+package ion
+
+// Re-exports of Decimal internals for the /verif correspondence harness
+// (component "decimal", property C14).  Compiled only with -tags verif; adds
+// no behaviour.
+
+// VerifDecimalIsNegZero exposes the isNegZero field.
+func VerifDecimalIsNegZero(d *Decimal) bool { return d.isNegZero }
+
+// VerifDecimalUpscale runs the internal upscale.
+func VerifDecimalUpscale(d *Decimal, scale int32) *Decimal { return d.upscale(scale) }
+
+// VerifDecimalTrunc runs the internal trunc (decimal -> int64, dropping the fraction).
+func VerifDecimalTrunc(d *Decimal) (int64, error) { return d.trunc() }
